@@ -17,6 +17,16 @@ CLAIMED = {
              "three refutation lemmas for the recorded finding F6; the positive taiko statement is not proved (partial). "
              "Float attributes are compared bitwise gradual-vs-one-shot on the implementation for every prefix.",
         tech="Coq simulation proof (gradual machine refines list iterator) + model/impl correspondence + bitwise differential"),
+    "C01": dict(
+        text="A Gallina model cannot exhibit nondeterminism, so the proof is: (a) the inventory of ambient-effect sites (hash "
+             "iteration, statics, thread-locals, lazy init, interior mutability, clocks, environment, ambient RNGs, file system, "
+             "addresses) is REGENERATED from every non-test source file on each run and a kernel-evaluated theorem says each "
+             "site is one of four listed, discharged ones and no forbidden kind occurs; (b) for the one hash map (bpm) a Coq "
+             "theorem: for every timing-point list and EVERY iteration order (permutation) of the map's entries, bpm() returns "
+             "what the insertion-order model returns, and that model is tied bit-for-bit to Beatmap::bpm. Purity of the "
+             "unmodelled numerics rests on the inventory plus the repetition oracle (every API repeated in shuffled orders, "
+             "fresh vs reused builders, map hash before/after, two processes) - partial.",
+        tech="translator-generated effect inventory + Coq permutation-invariance proof + repetition/cross-process differential"),
     "C03": dict(
         text="Coq theorems for every object list, every skill oracle, every performance oracle, every score state and every "
              "sequence of next/nth(k)/last/len calls: a fresh osu!/catch/mania gradual performance calculator returns exactly "
